@@ -32,7 +32,7 @@ LEVEL_TEXT = ("Decided: no exception thrown below BackendApp::Run or RunBackendA
               "Not decided: termination and absence of crashes (signals, stack overflow, UB) over all NL "
               "files - C02/C01 cover the reader and the converter clauses; invocation without -AMPL and "
               "without wantsol, where no .sol file is requested and the message goes to stdout."
-              "  Also decided (added after the seeded rounds): an unbounded indicator body is linearised only with a positive default big-M and otherwise ends in a diagnosed conversion failure.")
+              "  Also decided (added after the seeded rounds): an unbounded indicator body is linearised only with a positive default big-M and otherwise ends in a diagnosed conversion failure; the .sol file is written iff -AMPL or wantsol bit 1 (32 evaluated cases).")
 LEVEL_NOTE = "Trusted: clang 14 front end/CFG, tool/mpx.cc (incl. thrown-type classification), the rule module."
 DESIGN_REF = "DESIGN.md section 4, C09"
 EXPLANATION = (
